@@ -145,13 +145,15 @@ fn case_body(line: &str) -> String {
     }
     let mut ctx = Ctx { events: Vec::new() };
     let summary = match parts[0] {
-        "P" | "E" => {
+        // "PB" / "EB": the same with a bare Environment (no `inputs` binding), as a library user or a
+        // test of blots-core creates it; every shipped driver binds `inputs` first
+        "P" | "E" | "PB" | "EB" => {
             let src = match parts.get(1).and_then(|h| text_of(h)) {
                 Some(s) => s,
                 None => return "badutf8".into(),
             };
             let inputs = parts.get(2).and_then(|h| text_of(h));
-            pipeline(&mut ctx, &src, inputs.as_deref(), parts[0] == "P")
+            pipeline(&mut ctx, &src, inputs.as_deref(), parts[0].starts_with('P'), parts[0].ends_with('B'))
         }
         "U" => {
             let from = parts.get(1).and_then(|h| text_of(h)).unwrap_or_default();
@@ -284,7 +286,7 @@ fn serialise_value(ctx: &mut Ctx, stage: &str, v: &Value, heap: &Rc<RefCell<Heap
 // ---------------------------------------------------------------- the pipeline
 const WIDTHS: [Option<usize>; 7] = [None, Some(1), Some(8), Some(20), Some(40), Some(80), Some(200)];
 
-fn pipeline(ctx: &mut Ctx, src: &str, inputs_json: Option<&str>, full: bool) -> String {
+fn pipeline(ctx: &mut Ctx, src: &str, inputs_json: Option<&str>, full: bool, bare: bool) -> String {
     let heap = Rc::new(RefCell::new(Heap::new()));
     let bindings = Rc::new(Environment::new());
     let mut summary: Vec<String> = Vec::new();
@@ -317,8 +319,10 @@ fn pipeline(ctx: &mut Ctx, src: &str, inputs_json: Option<&str>, full: bool) -> 
             None => summary.push("inputs=panic".into()),
         }
     }
-    let rec = heap.borrow_mut().insert_record(inputs_map);
-    bindings.insert("inputs".to_string(), rec);
+    if !bare {
+        let rec = heap.borrow_mut().insert_record(inputs_map);
+        bindings.insert("inputs".to_string(), rec);
+    }
 
     // ---- parse
     let pairs = match ctx.guard("parse", || get_pairs(src)) {
